@@ -4,7 +4,9 @@
 //! for anchors at the tail / mid-thread / far from the tail under several cache states (as found,
 //! `continuity_streams/` removed, single faults on each cache file), twice on the same store, and again
 //! after more frames were appended beyond the cut.
-//! and — deterministically, from inside the rip_verif points of an append — while further frames are being appended.
+//! and — deterministically, from inside the rip_verif points of an append (message, run_ended, run_spawned, cursor, side
+//! effects, checkpoint) — while further frames are being appended.
+//! Window-boundary sweeps: threads 1.2x..4x of each tail-scan window (256 KiB .. 8 MiB), EVERY message as anchor.
 //! Finally real runs: messages posted through the real router with a scripted provider; the frames each run logged
 //! (selection_decided, context_compiled + bundle artifact) are read back and judged the same way.
 //!   correspondence: decision + bundle (ids mapped to seqs / ordinals) vs coq/Model/Compile.v
@@ -767,10 +769,12 @@ fn gen_case(r: &mut Rng, i: u64) -> Case {
     let mut race = vec![];
     if i % 4 == 0 && n <= 40 {
         for _ in 0..r.range(1, 3) {
-            race.push(match r.below(6) {
-                0 | 1 => Op::Msg { size: *r.pick(&[5u64, 200]) },
+            race.push(match r.below(8) {
+                0 | 1 => Op::Msg { size: *r.pick(&[5u64, 200, 20_000]) },
                 2 => Op::RunEnded { run: r.below(6) },
                 3 => Op::Cursor,
+                4 => Op::Checkpoint { msg: r.below(nmsg.max(1)) },
+                5 => Op::Run { msg: r.below(nmsg.max(1)), text: 3, snap: 0 },
                 _ => Op::SideFx,
             });
         }
@@ -1132,8 +1136,12 @@ fn judge(case: &Case, out: &CaseOut, limit: usize, max_refs: usize, checks: &mut
                     (Out::Ok { bundle: b1, decision: d1, .. }, Out::Ok { bundle: b0, decision: d0, .. }) => b1["items"] == b0["items"] && d1 == d0,
                     _ => false,
                 };
+                // S25: the same for a checkpoint frame: head from the full sidecar, checkpoints from the checkpoint sidecar /
+                // index, written last
+                let ckpt_frame = matches!(case.race[ob.op_idx], Op::Checkpoint { .. } | Op::Schedule { .. });
                 let class = match &ob.out {
                     Out::Ok { from_seq, .. } if mr_frame && same_items && *from_seq == head_after && (stage == "cache.side" || stage == "cache.mr") => "cut_ahead_of_mr_sidecar_during_append".to_string(),
+                    Out::Ok { from_seq, .. } if ckpt_frame && same_items && *from_seq == head_after && (stage == "cache.side" || stage == "cache.mr" || stage == "cache.comp") => "cut_ahead_of_checkpoint_sidecar_during_append".to_string(),
                     _ => format!("racing_append_changes_bundle:{stage}"),
                 };
                 if flagged.insert((ob.anchor_idx, class.clone())) {
@@ -1385,6 +1393,13 @@ fn main() {
                 let nmsg = ops.iter().filter(|o| matches!(o, Op::Msg { .. })).count() as u64;
                 let anchors = vec![Anchor::Msg(0), Anchor::Msg(1), Anchor::Msg(r.below(nmsg.max(1))), Anchor::Last];
                 cases.push(Case { ops, anchors, later: gen_later(&mut r, nmsg), faults: vec![(*r.pick(&TARGETS), FaultKind::Delete)], big: true, race: vec![], sweep: 0 });
+            }
+            // appends racing with a compile that goes through the mr seek window (thread larger than every tail scan)
+            {
+                let mut ops = vec![Op::Msg { size: 5 }, Op::Run { msg: 0, text: 3, snap: 0 }, Op::RunEnded { run: 0 }, Op::SideFx];
+                ops.extend((0..10).map(|_| Op::Msg { size: 1 << 20 }));
+                ops.push(Op::Run { msg: 10, text: 2, snap: 0 });
+                cases.push(Case { ops, anchors: vec![Anchor::Last], later: vec![], faults: vec![], big: true, race: vec![Op::RunEnded { run: 1 }, Op::Checkpoint { msg: 3 }, Op::Msg { size: 200 }], sweep: 0 });
             }
             // every single fault on a rich fixed history
             let base = corpus_cases().remove(2);
